@@ -413,7 +413,8 @@ func ownHandle(addr ssa.Value, handles map[string]bool, relOf func(*types.Packag
 		case *ssa.FieldAddr:
 			if pt, ok := x.X.Type().Underlying().(*types.Pointer); ok {
 				if nm, ok := pt.Elem().(*types.Named); ok && nm.Obj().Pkg() != nil {
-					if k := relOf(nm.Obj().Pkg()) + "." + nm.Obj().Name(); handles[k] {
+					if k := relOf(nm.Obj().Pkg()) + "." + nm.Obj().Name(); handles[k] && !hasMutex(nm) {
+						// (a handle that acquires a mutex is governed by the LOCK-* rules instead)
 						if _, fresh := x.X.(*ssa.Alloc); !fresh {
 							return k
 						}
@@ -474,4 +475,18 @@ func (m *Mod) OwnFieldWrites(handles map[string]bool, relOf func(*types.Package)
 		}
 	}
 	return out
+}
+
+// hasMutex: the struct has a sync.Mutex / sync.RWMutex field (embedded or named).
+func hasMutex(nm *types.Named) bool {
+	st, ok := nm.Underlying().(*types.Struct)
+	if !ok {
+		return false
+	}
+	for i := 0; i < st.NumFields(); i++ {
+		if fn, ok := st.Field(i).Type().(*types.Named); ok && fn.Obj().Pkg() != nil && fn.Obj().Pkg().Path() == "sync" && (fn.Obj().Name() == "Mutex" || fn.Obj().Name() == "RWMutex") {
+			return true
+		}
+	}
+	return false
 }
